@@ -1,6 +1,4 @@
 import CatiiProofs.IndxTop
-import CatiiProofs.IndxSaveGen
-import CatiiProofs.IndxLoadGen
 /-!
 # C10 — INDX save then load is the identity
 
@@ -28,15 +26,9 @@ theorem load_of_saved (es : List Entry) (c : Nat) (b : Bytes) (h : save es c = .
   obtain ⟨b', hb', hl⟩ := save_load_identity es c hs
   rw [h] at hb'; cases hb'; exact hl
 
-/-- **on the programs regenerated from the source**: the reads of the current `IndxIO.load` (`Gen.loadProgram`), run on what the
-writes of the current `IndxIO.save` (`Gen.saveProgram`, with the size `Gen.bufferSizeGen` computes) put into the file, give back the
-entries, the common value and the uint32 row-id word - for every accepted input -/
-theorem generated_save_load_identity (es : List Entry) (c : Nat) (h : InScope es c) :
-    runR Gen.loadProgram (runW ⟨es, c, arityOf es, indexWordSize es c, 4,
-      Gen.bufferSizeGen es.length (arityOf es) (indexWordSize es c) 4 (es.map (·.rowids.length)).sum⟩ Gen.saveProgram)
-      = .ok (es, c, 4) := by
-  rw [runR_loadProgram]
-  exact load_of_saved es c _ (generated_writer_is_save es c h)
+/-! The same round trip stated on the write / read PROGRAMS regenerated from the current `IndxIO.save` / `IndxIO.load` is
+`C11.generated_save_load_identity` (it lives with C11 because those programs are tied to the documented layout: a change of
+the format that stays symmetric between writer and reader keeps C10 true and must not alarm here). -/
 
 /-! Non-vacuity: every width class crossed (coordinate 2^40 with common 3; coordinate 1 with
 common 2^62), an empty row-id list, zero entries. -/
